@@ -626,6 +626,16 @@ func (s *HASyncer) connectToStream() error {
 		return fmt.Errorf("server returned %d: %s", resp.StatusCode, string(body))
 	}
 
+	// The active only queues changes for streams that are registered at the
+	// moment of the change, so a change made between the full sync that
+	// preceded this call and the registration of this stream has been sent to
+	// nobody. The stream is registered by now (the response header is written
+	// after registration): one more full sync closes the gap, and everything
+	// that changes from here on is queued on the stream and applied after it.
+	if err := s.performFullSync(); err != nil {
+		return fmt.Errorf("full sync after stream attach: %w", err)
+	}
+
 	s.mu.Lock()
 	s.connected = true
 	s.stats.Connected = true
